@@ -3,7 +3,7 @@ C04 — the model satisfies the specification oracle, clause by clause (`model_s
 
 The oracle (Spec.lean) judges an implementation trace through `judgeEv` (events) and `judgeNums` (the numbers of the
 `obs` line).  Here both are applied to a run of the model: for every configured budget, every configuration with a
-positive MaxCallDepth and a StackSize the harness accepts, every program shape and every fuel, no clause fires.
+positive MaxCallDepth and a StackSize the harness accepts (above the slack of reset_interpreter), every program shape and every fuel, no clause fires.
 -/
 import NV.C04.Lemmas
 import NV.C04.LemmasDepth
@@ -97,7 +97,7 @@ def obsOf (cfg : Cfg) (r : Out × St) : Obs :=
     decidable: the safe applies of the program (each may add one tick, see `eval_bound_attained_through_safe_apply`)
     fit into that allowance. -/
 theorem model_satisfies_spec (raw : Int) (cfg : Cfg) (hcfg : cfg.maxCost = clampCost raw) (hd : 0 < cfg.maxDepth)
-    (hs : 6 ≤ cfg.stackSize) (fuel : Nat) (sh : Sh) (lim : Limits)
+    (hs : stackSlack + 1 ≤ cfg.stackSize) (fuel : Nat) (sh : Sh) (lim : Limits)
     (h1 : lim.cost = cfg.maxCost) (h2 : lim.depth = cfg.maxDepth) (h3 : lim.stack = cfg.stackSize)
     (hw : (sh.safeWeight : Int) ≤ (handlerAllowance : Int) * (lim.catchDepth + 2)) :
     judgeNums lim (obsOf cfg (evaluate cfg fuel sh)) = [] ∧ judgeEv (evaluate cfg fuel sh).2.evs = [] := by
@@ -111,6 +111,7 @@ theorem model_satisfies_spec (raw : Int) (cfg : Cfg) (hcfg : cfg.maxCost = clamp
   have hwt : (Sh.call 0 sh).safeWeight = sh.safeWeight := by simp [Sh.safeWeight]
   rw [hphi, hwt] at hT
   have hD := exec_DepthInv cfg fuel .driver (.call 0 sh) (St.start cfg) ⟨Int.le_of_lt hd, Int.le_of_lt hd⟩
+  unfold stackSlack stackSlackSrc at hs
   have hinv : StackInv cfg (St.start cfg) := by
     refine ⟨?_, ?_⟩
     · show (0 : Int) ≤ spEnd cfg
